@@ -452,6 +452,11 @@ def main(argv):
     t0 = time.time()
     log = []
     os.makedirs(WORK, exist_ok=True)
+    # scratch home directories of the worker processes (the implementation exports its event trace to ~/Downloads): one root per check run
+    import atexit, shutil
+    home_root = os.path.join(WORK, 'home', str(os.getpid()))
+    os.environ['VERIF_HOME_ROOT'] = home_root
+    atexit.register(lambda: shutil.rmtree(home_root, ignore_errors=True))
 
     if replay:
         b = build_for(prop, cfg, log)
